@@ -73,20 +73,21 @@ def checkAgg : P String := do
     let rowOf (label : Str) : Option Nat := stat.idxOf? (.str label)
     for kc in f do
       if kc.1 != Frame.sStat then
-        match Spec.valuesOf ω kc.2.data with
-        | some xs =>
-          if !xs.isEmpty then
-            let col := ((d.get? kc.1).map (·.data)).getD []
-            let cellAt (label : Str) : Cell := match rowOf label with
-              | some i => col.getD i .nil
-              | none => .nil
-            let good :=
-              cellApprox (cellAt [99, 111, 117, 110, 116]) (.flt false (.fin (xs.length : Rat))) &&
-              cellApprox (cellAt [109, 101, 97, 110]) (.flt false ((FVal.sum xs).divNat xs.length)) &&
-              cellApprox (cellAt [109, 105, 110]) (.flt false (Spec.leastNonNaN xs)) &&
-              cellApprox (cellAt [109, 97, 120]) (.flt false (Spec.greatestNonNaN xs))
-            if !good then c16 := firstFail c16 "fail:describe"
-        | none => pure ()
+        -- the numeric cells of the column (what Describe summarises); other cells are skipped
+        let xs := kc.2.data.filterMap ω.toFloat
+        if xs.isEmpty then
+          if d.has kc.1 then c16 := firstFail c16 "fail:describe-column-without-numbers"
+        else
+          let col := ((d.get? kc.1).map (·.data)).getD []
+          let cellAt (label : Str) : Cell := match rowOf label with
+            | some i => col.getD i .nil
+            | none => .nil
+          let good :=
+            cellApprox (cellAt [99, 111, 117, 110, 116]) (.flt false (.fin (xs.length : Rat))) &&
+            cellApprox (cellAt [109, 101, 97, 110]) (.flt false ((FVal.sum xs).divNat xs.length)) &&
+            cellApprox (cellAt [109, 105, 110]) (.flt false (Spec.leastNonNaN xs)) &&
+            cellApprox (cellAt [109, 97, 120]) (.flt false (Spec.greatestNonNaN xs))
+          if !good then c16 := firstFail c16 "fail:describe"
   else c16 := firstFail c16 s!"fail:describe-{dst}"
   -- Add
   expect "ADD"
